@@ -23,7 +23,6 @@ import (
 	"log"
 	"net"
 	"net/http"
-	"regexp/syntax"
 	"sort"
 	"strconv"
 	"strings"
@@ -631,18 +630,15 @@ func (s *Server) servePrintErr(w http.ResponseWriter, r *http.Request) error {
 		num = defaultNumResults
 	}
 
-	re, err := syntax.Parse("^"+regexp.QuoteMeta(fileStr)+"$", 0)
-	if err != nil {
-		return err
-	}
-
 	repoRe, err := regexp.Compile("^" + regexp.QuoteMeta(repoStr) + "$")
 	if err != nil {
 		return err
 	}
 
 	qs := []query.Q{
-		&query.Regexp{Regexp: re, FileName: true, CaseSensitive: true},
+		// The exact name, byte for byte: a regexp cannot express a file name
+		// that is not valid UTF-8, and such names get print links as well.
+		query.NewFileNameSet(fileStr),
 		&query.Repo{Regexp: repoRe},
 	}
 
